@@ -590,8 +590,10 @@ func vfC46GenFrac(rt *rapid.T) vfC46FracPlan {
 	}
 	if !p.Full {
 		f := int64(p.Fraction)
+		seen := map[int64]bool{}
 		for _, d := range []int64{0, 1, f - 2, f - 1, f, f + 1, f + 2, 999998, 999999} {
-			if d >= 0 && d < 1000000 {
+			if d >= 0 && d < 1000000 && !seen[d] {
+				seen[d] = true
 				p.Draws = append(p.Draws, d)
 			}
 		}
@@ -639,7 +641,13 @@ func vfC46RunFrac(_ *testing.T, p vfC46FracPlan) vk.Result {
 			refMatched++
 		}
 		if got != want && len(disagree) < 8 {
-			disagree = append(disagree, d)
+			dup := false
+			for _, x := range disagree {
+				dup = dup || x == d
+			}
+			if !dup {
+				disagree = append(disagree, d)
+			}
 		}
 	}
 	if p.Full {
